@@ -355,32 +355,65 @@ theorem failure_false_of_unfinished {r : Rec} (h : r.finished = false) : r.failu
 theorem success_false_of_unfinished {r : Rec} (h : r.finished = false) : r.success = false := by
   simp only [Rec.finished, Bool.or_eq_false_iff] at h; exact h.1
 
-/-- One iteration of the timer's loop: either the (possibly reset) record is awake (after the idle
-    wait) and executed, or nothing is awakened and the record is kept. -/
+theorem timerState_retries (r : Rec) (now t : Int) : (timerState r now t).retries = (timerReset r now).retries := by
+  unfold timerState; split
+  · rename_i h; simp [fromScratch, h]
+  · rfl
+
+theorem timerState_keep {r : Rec} (hf : r.finished = false) (hr : r.retries ≠ 0) (now t : Int) :
+    timerState r now t = r := by
+  simp [timerState, timerReset_unfinished hf, hr]
+
+theorem timerState_fresh0 {r : Rec} (hf : r.finished = false) (hr : r.retries = 0) (now t : Int) :
+    timerState r now t = fromScratch t := by
+  simp [timerState, timerReset_unfinished hf, hr]
+
+theorem timerState_failure {r : Rec} (h : r.failure = true) (hr : r.retries ≠ 0) (now t : Int) :
+    timerState r now t = r := by
+  simp [timerState, timerReset_failure h, hr]
+
+theorem timerState_success {r : Rec} (hf : r.finished = true) (hn : r.failure = false) (now t : Int) :
+    timerState r now t = fromScratch t := by
+  simp [timerState, timerReset_success hf hn, fromScratch]
+
+/-- One iteration of the timer's loop: either the record of the series (reset after a success,
+    re-created after the idle wait while it has made no attempt) is awake and executed, or nothing
+    is awakened and the record is kept. -/
 theorem timerRun_step (env : Env) (l : Limits) (iv : Nat) (sh : Bool) (iu now : Int) (r : Rec) (x : Raised) (dur : Nat)
     (rest : List (Raised × Nat)) :
-    ((timerReset r now).awakened (timerAt now iu) = true ∧
+    ((timerState r now (timerAt now iu)).awakened (timerAt now iu) = true ∧
       timerRun env l iv sh iu now r ((x, dur) :: rest) =
-        .att (attemptAt env l (timerAt now iu) (timerReset r now) x dur 0) ::
-          timerRun env l iv sh iu (timerNext iv sh (attemptAt env l (timerAt now iu) (timerReset r now) x dur 0))
-            (attemptAt env l (timerAt now iu) (timerReset r now) x dur 0).recAfter rest) ∨
-    ((timerReset r now).awakened (timerAt now iu) = false ∧
+        .att (attemptAt env l (timerAt now iu) (timerState r now (timerAt now iu)) x dur 0) ::
+          timerRun env l iv sh iu (timerNext iv sh (attemptAt env l (timerAt now iu) (timerState r now (timerAt now iu)) x dur 0))
+            (attemptAt env l (timerAt now iu) (timerState r now (timerAt now iu)) x dur 0).recAfter rest) ∨
+    ((timerState r now (timerAt now iu)).awakened (timerAt now iu) = false ∧
       timerRun env l iv sh iu now r ((x, dur) :: rest) =
-        .idle (timerAt now iu) (timerReset r now).finished ::
-          timerRun env l iv sh iu (timerIdleNext iv sh (timerReset r now) (timerAt now iu)) (timerReset r now) rest) := by
-  cases h : (timerReset r now).awakened (timerAt now iu)
+        .idle (timerAt now iu) (timerState r now (timerAt now iu)).finished ::
+          timerRun env l iv sh iu (timerIdleNext iv sh (timerState r now (timerAt now iu)) (timerAt now iu))
+            (timerState r now (timerAt now iu)) rest) := by
+  cases h : (timerState r now (timerAt now iu)).awakened (timerAt now iu)
   · right; exact ⟨rfl, by simp [timerRun, h]⟩
   · left; exact ⟨rfl, by simp [timerRun, h]⟩
 
-/-- What the reset leaves of a record when the iteration is idle: the record itself. -/
-theorem timerReset_idle {r : Rec} {now t : Int} (h : (timerReset r now).awakened t = false) :
-    timerReset r now = r := by
-  cases hf : r.finished with
-  | false => exact timerReset_unfinished hf now
-  | true =>
-    cases hn : r.failure with
-    | true => exact timerReset_failure hn now
-    | false => rw [timerReset_success hf hn, fromScratch_awakened] at h; cases h
+/-- What is left of a record when the iteration is idle: the record itself, and it has made attempts. -/
+theorem timerState_idle {r : Rec} {now t : Int} (h : (timerState r now t).awakened t = false) :
+    timerState r now t = r ∧ r.retries ≠ 0 := by
+  unfold timerState at h ⊢
+  split at h
+  · rw [fromScratch_awakened] at h; cases h
+  · rename_i hr
+    rw [if_neg hr]
+    cases hf : r.finished with
+    | false => rw [timerReset_unfinished hf] at hr ⊢; exact ⟨rfl, hr⟩
+    | true =>
+      cases hn : r.failure with
+      | true => rw [timerReset_failure hn] at hr ⊢; exact ⟨rfl, hr⟩
+      | false => rw [timerReset_success hf hn] at hr; simp [fromScratch] at hr
+
+theorem attempts_append (xs ys : List Ev) : attempts (xs ++ ys) = attempts xs ++ attempts ys := by
+  induction xs with
+  | nil => rfl
+  | cons e rest ih => cases e <;> simp [attempts, ih]
 
 theorem timerPause_nonneg (iv : Nat) (sh : Bool) (passed : Int) : 0 ≤ timerPause iv sh passed := by
   unfold timerPause
